@@ -137,13 +137,14 @@ Section PS.
     /\ twl false (length (st_path st)) 0 (st_current st)
     /\ t_dotted (st_current st) = false
     /\ Forall kline (st_path st) /\ length (st_path st) < LIMIT
-    /\ (st_path st = [] -> t_decor (st_current st) = decor_default).
+    /\ (st_path st = [] -> t_decor (st_current st) = decor_default)
+    /\ t_dotted (st_root st) = false.
 
   Lemma limit_pos : 0 < LIMIT. Proof. unfold LIMIT. lia. Qed.
   Lemma sinv_new : sinv state_new.
   Proof.
     unfold sinv, state_new. cbn [st_root st_current st_path length]. split; [apply twl_new; discriminate|].
-    split; [apply twl_set_span, twl_new; discriminate|]. split; [reflexivity|]. split; [constructor|]. split; [apply limit_pos|reflexivity].
+    split; [apply twl_set_span, twl_new; discriminate|]. split; [reflexivity|]. split; [constructor|]. split; [apply limit_pos|split; reflexivity].
   Qed.
   Lemma sinv_on_ws st sp : sinv st -> sinv (on_ws st sp).
   Proof. exact (fun H => H). Qed.
@@ -175,7 +176,7 @@ Section PS.
     set (cur := match t_span (st_current st), item_span (IValue v) with
                 | Some e, Some vs => t_set_span (st_current st) (Some (fst e, snd vs))
                 | _, _ => st_current st end).
-    intros H (Hr & Hc & Hcd & Hp & Hl & Hdef) Hpath Hk Hpre Hv Hwr Hvl Hlen.
+    intros H (Hr & Hc & Hcd & Hp & Hl & Hdef & Hrd) Hpath Hk Hpre Hv Hwr Hvl Hlen.
     assert (Hk' : kline k').
     { destruct Hk as (H1 & H2 & [_ H4]). split; [exact H1|]. split; [exact H2|]. split; [exact Hpre|exact H4]. }
     assert (Hcur : twl false (length (st_path st)) 0 cur).
@@ -194,7 +195,7 @@ Section PS.
       - split; [lia|exact Hvl].
       - destruct Hw' as [_ ->]. split; [lia|exact Hvl]. }
     cbn [st_path st_trailing]. split; [|auto]. unfold sinv. cbn [st_root st_current st_path].
-    split; [exact Hr|]. split; [exact Hc'|]. split; [rewrite Hd'; apply Hcurd|]. split; [exact Hp|]. split; [exact Hl|].
+    split; [exact Hr|]. split; [exact Hc'|]. split; [rewrite Hd'; apply Hcurd|]. split; [exact Hp|]. split; [exact Hl|]. split; [|exact Hrd].
     intro E0. specialize (Hdef E0).
     (* the decor of the current table is not touched by descend_path *)
     clear -E Hdef Hcurd. destruct Hcurd as [_ Ed]. rewrite <- Ed in Hdef. clear Ed.
@@ -247,10 +248,10 @@ Section PS.
     sinv st' /\ st_path st' = st_path st /\ st_trailing st' = None.
   Proof.
     unfold on_keyval_sp. intros H Hs Hp Hk Hpre Hv Hw Hl Hlen. destruct (on_keyval st path k (IValue v)) as [st1| |] eqn:E; try discriminate.
-    injection H as <-. destruct (on_keyval_sinv st path k v st1 E Hs Hp Hk Hpre Hv Hw Hl Hlen) as ((Hr & Hc & Hcd & Hpp & Hll & Hdef) & Ep & Et).
+    injection H as <-. destruct (on_keyval_sinv st path k v st1 E Hs Hp Hk Hpre Hv Hw Hl Hlen) as ((Hr & Hc & Hcd & Hpp & Hll & Hdef & Hrd) & Ep & Et).
     cbn [st_path st_trailing]. split; [|auto]. unfold sinv. cbn [st_root st_current st_path].
     destruct (set_dotted_spans_dotted path (st_current st1) (item_end (IValue v))) as [Ed Edec].
-    split; [exact Hr|]. split; [apply set_dotted_spans_twl, Hc|]. split; [rewrite Ed; exact Hcd|]. split; [exact Hpp|]. split; [exact Hll|].
+    split; [exact Hr|]. split; [apply set_dotted_spans_twl, Hc|]. split; [rewrite Ed; exact Hcd|]. split; [exact Hpp|]. split; [exact Hll|]. split; [|exact Hrd].
     intro E0. rewrite Edec. apply Hdef, E0.
   Qed.
 
@@ -262,9 +263,9 @@ Section PS.
 
   Lemma finalize_sinv st st' :
     finalize_table st = COk st' -> sinv st ->
-    twl true 0 0 (st_root st') /\ st_path st' = [] /\ st_trailing st' = st_trailing st /\ st_current st' = tbl_new.
+    twl true 0 0 (st_root st') /\ t_dotted (st_root st') = false /\ st_path st' = [] /\ st_trailing st' = st_trailing st /\ st_current st' = tbl_new.
   Proof.
-    unfold finalize_table. cbv zeta. intros H (Hr & Hc & Hcd & Hp & Hl & Hdef).
+    unfold finalize_table. cbv zeta. intros H (Hr & Hc & Hcd & Hp & Hl & Hdef & Hrd).
     destruct (pop_key (st_path st)) as [[ppath k]|] eqn:Ep.
     - pose proof (pop_key_app _ _ _ Ep) as Epath. rewrite Epath in Hp, Hl, Hc. apply Forall_app in Hp as [Hpp Hk]. inversion Hk as [|? ? Hk' _]; subst.
       rewrite app_length in Hl, Hc. cbn [length] in Hl, Hc.
@@ -273,8 +274,8 @@ Section PS.
       destruct (st_is_array st).
       + match type of H with context [with_table_at (st_root st) ppath false ?F] => set (f := F) in * end.
         destruct (with_table_at (st_root st) ppath false f) as [[root' u]| |] eqn:E; try discriminate. injection H as <-.
-        cbn [st_root st_path st_trailing st_current]. split; [|auto].
-        destruct (wta_twl false f ppath (st_root st) true 0 0 root' u E Hr Hpp (fun _ => ltac:(cbn; lia))) as (Hr' & _); [|exact Hr'].
+        cbn [st_root st_path st_trailing st_current].
+        destruct (wta_twl false f ppath (st_root st) true 0 0 root' u E Hr Hpp (fun _ => ltac:(cbn; lia))) as (Hr' & Hd' & _); [|split; [exact Hr'|split; [rewrite Hd'; exact Hrd|auto]]].
         intros table top' n' table' _ Hn' Htab Hft. subst f. cbv beta in Hft. cbn [Nat.add] in *.
         apply twl_eq in Htab as (Hd & Hdi & Hall).
         destruct (kv_get (t_items table) (k_key k)) as [[k0 [|v0|t0|ts asp]]|] eqn:G; try discriminate.
@@ -287,8 +288,8 @@ Section PS.
           replace (S (length ppath)) with (length ppath + 1) by lia. exact Hc.
       + match type of H with context [with_table_at (st_root st) ppath false ?F] => set (f := F) in * end.
         destruct (with_table_at (st_root st) ppath false f) as [[root' u]| |] eqn:E; try discriminate. injection H as <-.
-        cbn [st_root st_path st_trailing st_current]. split; [|auto].
-        destruct (wta_twl false f ppath (st_root st) true 0 0 root' u E Hr Hpp (fun _ => ltac:(cbn; lia))) as (Hr' & _); [|exact Hr'].
+        cbn [st_root st_path st_trailing st_current].
+        destruct (wta_twl false f ppath (st_root st) true 0 0 root' u E Hr Hpp (fun _ => ltac:(cbn; lia))) as (Hr' & Hd' & _); [|split; [exact Hr'|split; [rewrite Hd'; exact Hrd|auto]]].
         intros table top' n' table' _ Hn' Htab Hft. subst f. cbv beta in Hft. cbn [Nat.add] in *.
         apply twl_eq in Htab as (Hd & Hdi & Hall).
         destruct (kv_get (t_items table) (k_key k)) as [[k0 [|v0|t0|ts asp]]|] eqn:G; try discriminate.
@@ -298,7 +299,7 @@ Section PS.
         * injection Hft as <-. split; [|apply t_dotted_set_items]. apply twl_set_items; [apply twl_eq; auto|].
           apply all_P_push; [exact Hall|]. apply Hcur.
     - apply pop_key_none in Ep. destruct (tbl_is_empty (st_root st)); [|discriminate]. injection H as <-.
-      cbn [st_root st_path st_trailing st_current]. split; [|auto]. rewrite Ep in Hc. cbn [length] in Hc. apply twl_top_default; [exact Hc|apply Hdef, Ep].
+      cbn [st_root st_path st_trailing st_current]. split; [|split; [exact Hcd|auto]]. rewrite Ep in Hc. cbn [length] in Hc. apply twl_top_default; [exact Hc|apply Hdef, Ep].
   Qed.
 
   (* ---- start_table / start_array_table ---------------------------------------------------------------------------------- *)
@@ -313,13 +314,13 @@ Section PS.
   Qed.
 
   Lemma open_table_sinv st root' cur path dec sp arr :
-    twl true 0 0 root' -> all_P (tentry (length path) 0) (t_items cur) -> decor_ok SLines SLineTrail (tdecor s dec) ->
+    twl true 0 0 root' -> t_dotted root' = false -> all_P (tentry (length path) 0) (t_items cur) -> decor_ok SLines SLineTrail (tdecor s dec) ->
     Forall kline path -> length path < LIMIT -> path <> [] ->
     sinv (open_table st root' cur path dec sp arr).
   Proof.
-    intros Hr Hitems Hdec Hp Hl Hne. unfold open_table, sinv. cbn [st_root st_current st_path t_dotted t_decor].
+    intros Hr Hrd Hitems Hdec Hp Hl Hne. unfold open_table, sinv. cbn [st_root st_current st_path].
     split; [exact Hr|]. split; [apply twl_eq; cbn [t_decor t_dotted t_implicit t_items]; split; [exact Hdec|split; [discriminate|exact Hitems]]|].
-    split; [reflexivity|]. split; [exact Hp|]. split; [exact Hl|]. intro E. contradiction.
+    split; [reflexivity|]. split; [exact Hp|]. split; [exact Hl|]. split; [intro E; contradiction|exact Hrd].
   Qed.
 
   Lemma start_table_sinv st path dec sp st' :
@@ -327,7 +328,7 @@ Section PS.
     decor_ok SLines SLineTrail (tdecor s dec) ->
     sinv st' /\ st_path st' = path /\ st_trailing st' = st_trailing st.
   Proof.
-    unfold start_table. intros H (Hr & Hc & Hcd & Hp & Hl & Hdef) Hpath Hlen Hdec.
+    unfold start_table. intros H (Hr & Hc & Hcd & Hp & Hl & Hdef & Hrd) Hpath Hlen Hdec.
     destruct (negb (tbl_is_empty (st_current st))) eqn:Ee; [discriminate|]. apply negb_false_iff in Ee.
     destruct (st_path st) eqn:Epath; [|discriminate]. cbn [length] in Hc.
     destruct (pop_key path) as [[ppath k]|] eqn:Ep; [|discriminate].
@@ -337,13 +338,13 @@ Section PS.
     match type of H with context [with_table_at (st_root st) ppath false ?F] => set (f := F) in * end.
     destruct (with_table_at (st_root st) ppath false f) as [[root' taken]| |] eqn:E; try discriminate. injection H as <-.
     destruct (wta_twl false f ppath (st_root st) true 0 0 root' taken E Hr Hpp (fun _ => ltac:(cbn; lia)))
-      as (Hr' & _ & table & table' & top' & n' & Hn' & Htab & Hft).
+      as (Hr' & Hd' & table & table' & top' & n' & Hn' & Htab & Hft).
     { intros table top' n' table' _ Hn' Htab Hft. subst f. cbv beta in Hft.
       destruct (kv_get (t_items table) (k_key k)) as [[k0 [|v0|t0|ts asp]]|] eqn:G; try discriminate.
       - destruct (t_implicit t0 && negb (t_dotted t0)); [|discriminate]. injection Hft as <- _. split; [|apply t_dotted_set_items].
         apply twl_eq in Htab as (Hd & Hdi & Hall). apply twl_set_items; [apply twl_eq; auto|]. apply all_P_remove, Hall.
       - injection Hft as <- _. auto. }
-    split; [|split; reflexivity]. apply open_table_sinv; [exact Hr'| |exact Hdec|exact Hpath0|exact Hlen|exact Hne].
+    split; [|split; reflexivity]. apply open_table_sinv; [exact Hr'|rewrite Hd'; exact Hrd| |exact Hdec|exact Hpath0|exact Hlen|exact Hne].
     subst f. cbv beta in Hft. cbn [Nat.add] in Htab. apply twl_eq in Htab as (_ & _ & Hall).
     destruct (kv_get (t_items table) (k_key k)) as [[k0 [|v0|t0|ts asp]]|] eqn:G; try discriminate.
     - destruct (t_implicit t0 && negb (t_dotted t0)) eqn:Ef; [|discriminate]. injection Hft as _ <-.
@@ -358,7 +359,7 @@ Section PS.
     decor_ok SLines SLineTrail (tdecor s dec) ->
     sinv st' /\ st_path st' = path /\ st_trailing st' = st_trailing st.
   Proof.
-    unfold start_array_table. intros H (Hr & Hc & Hcd & Hp & Hl & Hdef) Hpath Hlen Hdec.
+    unfold start_array_table. intros H (Hr & Hc & Hcd & Hp & Hl & Hdef & Hrd) Hpath Hlen Hdec.
     destruct (negb (tbl_is_empty (st_current st))) eqn:Ee; [discriminate|]. apply negb_false_iff in Ee.
     destruct (st_path st) eqn:Epath; [|discriminate]. cbn [length] in Hc.
     destruct (pop_key path) as [[ppath k]|] eqn:Ep; [|discriminate].
@@ -367,13 +368,13 @@ Section PS.
     assert (Elen : length path = S (length ppath)) by (rewrite Epp, app_length; cbn; lia).
     match type of H with context [with_table_at (st_root st) ppath false ?F] => set (f := F) in * end.
     destruct (with_table_at (st_root st) ppath false f) as [[root' u]| |] eqn:E; try discriminate. injection H as <-.
-    destruct (wta_twl false f ppath (st_root st) true 0 0 root' u E Hr Hpp (fun _ => ltac:(cbn; lia))) as (Hr' & _).
+    destruct (wta_twl false f ppath (st_root st) true 0 0 root' u E Hr Hpp (fun _ => ltac:(cbn; lia))) as (Hr' & Hd' & _).
     { intros table top' n' table' _ Hn' Htab Hft. subst f. cbv beta in Hft. cbn [Nat.add] in *.
       destruct (kv_get (t_items table) (k_key k)) as [[k0 [|v0|t0|ts asp]]|] eqn:G; try discriminate.
       - injection Hft as <-. auto.
       - injection Hft as <-. split; [|apply t_dotted_set_items]. apply twl_eq in Htab as (Hd & Hdi & Hall). apply twl_set_items; [apply twl_eq; auto|].
         apply all_P_push; [exact Hall|]. split; [exact Hk'|]. cbn [snd]. split; [lia|exact I]. }
-    split; [|split; reflexivity]. apply open_table_sinv; [exact Hr'| |exact Hdec|exact Hpath0|exact Hlen|exact Hne].
+    split; [|split; reflexivity]. apply open_table_sinv; [exact Hr'|rewrite Hd'; exact Hrd| |exact Hdec|exact Hpath0|exact Hlen|exact Hne].
     apply twl_eq in Hc as (_ & _ & Hitems). apply (tentry_empty 0 0); [exact Hitems|exact Ee].
   Qed.
 
@@ -387,12 +388,12 @@ Section PS.
   Proof.
     unfold on_header. intros H Hs Hpath Hlen Hlead Htr. destruct path as [|k0 ptl] eqn:Epath; [discriminate|]. rewrite <- Epath in *.
     destruct (finalize_table st) as [st1| |] eqn:Ef; try discriminate.
-    destruct (finalize_sinv st st1 Ef Hs) as (Hr1 & Ep1 & Et1 & Ec1).
+    destruct (finalize_sinv st st1 Ef Hs) as (Hr1 & Hrd1 & Ep1 & Et1 & Ec1).
     unfold take_trailing in H. cbv zeta in H.
     set (st2 := mkState (st_root st1) None (st_position st1) (st_current st1) (st_is_array st1) (st_path st1)) in *.
     assert (Hs2 : sinv st2).
     { unfold sinv, st2. cbn [st_root st_current st_path]. rewrite Ec1, Ep1. cbn [length]. split; [exact Hr1|]. split; [apply twl_new; discriminate|].
-      split; [reflexivity|]. split; [constructor|]. split; [apply limit_pos|reflexivity]. }
+      split; [reflexivity|]. split; [constructor|]. split; [apply limit_pos|split; [reflexivity|exact Hrd1]]. }
     assert (Hdec : decor_ok SLines SLineTrail (tdecor s (decor_new (match st_trailing st1 with Some sp0 => raw_with_span sp0 | None => REmpty end) (raw_with_span trailing)))).
     { split; cbn [tdecor decor_new d_prefix d_suffix toraw oraw_ok]; [rewrite Et1; exact Hlead|exact Htr]. }
     destruct arr.
